@@ -43,6 +43,17 @@ def doc():
     return El("svg", {"viewBox": "0 0 10 10", "fill": "red"}, [El(ETREE_PI), El("title", {}), defs, g, u, q, nested, El("image", {"id": "img"})], name="root")
 
 
+def doc_sized():
+    """The same document with its extent given by width / height instead of a viewBox."""
+    root = doc()
+    del root.attrib["viewBox"]
+    root.attrib["width"], root.attrib["height"] = "10", "10"
+    return root
+
+
+DOCS = {"viewbox": doc, "sized": doc_sized}
+
+
 def _area(gm):
     return 7
 
@@ -101,7 +112,11 @@ def _apply(it, repo, cur, step, checks, label):
 
 def run_history(repo: Repo, steps) -> Tuple[str, List[str]]:
     """Returns (verdict text or '', extra problems)."""
-    label = " ; ".join(f"{st[0]}({'inplace' if st[2] == 'inplace' else 'copy' if st[2] == 'copy' else 'query'}{', ' + ', '.join(f'{k}={v}' for k, v in st[3]) if len(st) > 3 else ''})" for st in steps)
+    mkdoc = doc
+    if steps and steps[0][0] == "@doc":
+        mkdoc = DOCS[steps[0][1]]
+        steps = steps[1:]
+    label = ("" if mkdoc is doc else "on the document sized by width/height: ") + " ; ".join(f"{st[0]}({'inplace' if st[2] == 'inplace' else 'copy' if st[2] == 'copy' else 'query'}{', ' + ', '.join(f'{k}={v}' for k, v in st[3]) if len(st) > 3 else ''})" for st in steps)
     results = {}
     problems: List[str] = []
     for variant in ("kept", "reparsed"):
@@ -116,8 +131,14 @@ def run_history(repo: Repo, steps) -> Tuple[str, List[str]]:
             # what the object says about itself, then its serialisation
             shapes = it.call(method_of(repo, "svg", "SVG", "shapes"), [cur], {})
             said = tuple((sh.cls.name, repr(sh.f.get("d")), repr(sh.f.get("fill")), _num(sh.f.get("opacity"))) for sh in it.iterate(shapes) if isinstance(sh, Rec))
-            return (said, it.call(method_of(repo, "svg", "SVG", "toetree"), [cur], {}))
-        outs = run(repo, body, lambda: ([make_svg(doc())], {}), setup_extra=_bbox_setup, max_paths=32, area=_area)
+            from sa.sym import PyRaise
+            try:
+                vb = it.call(method_of(repo, "svg", "SVG", "view_box"), [cur], {})
+                vb = tuple(_num(x) for x in it.iterate(vb)) if vb is not None else None
+            except PyRaise as e:
+                vb = "raises " + e.exc_type
+            return (said + (("view_box", vb),), it.call(method_of(repo, "svg", "SVG", "toetree"), [cur], {}))
+        outs = run(repo, body, lambda: ([make_svg(mkdoc())], {}), setup_extra=_bbox_setup, max_paths=32, area=_area)
         res = []
         for o in outs:
             if o.undecided:
@@ -222,6 +243,13 @@ def histories(tier: str):
         for en in (CACHE_EDITORS if tier == "thorough" else ["shapes_to_paths", "expand_shorthand", "absolute", "set_attributes", "apply_style_attributes"]):
             for dn in (DEPENDENT if tier == "thorough" else ["absolute", "clip_to_viewbox", "round_floats", "remove_unpainted_shapes"]):
                 out.append(((qn, qs[qn][1], "query"), (en, ed[en][1], "inplace"), (dn, ed[dn][1], "inplace")))
+    # the extent of the document comes from width / height: what a query remembered about it must not survive an edit of those attributes
+    size_edits = [("set_attributes", ((("width", "6"), ("height", "6")),), "inplace"), ("set_attributes", ((("viewBox", "0 0 4 4"),),), "inplace"), ("remove_attributes", (("height",),), "inplace")]
+    for qn in ("view_box", "tolerance", "shapes"):
+        for e in size_edits:
+            for dn in ("clip_to_viewbox", "absolute", "topicosvg", "view_box"):
+                last = (dn, (), "query") if dn == "view_box" else (dn, ed[dn][1], "inplace")
+                out.append((("@doc", "sized"), (qn, qs[qn][1], "query"), e, last))
     return out
 
 
